@@ -5,7 +5,7 @@
   Transcribes, from psutil/__init__.py: `Process._init`, `_get_ident`, `create_time` (memoised),
   `__eq__`, `__hash__`, `is_running`, `_raise_if_pid_reused`, `_send_signal`, `suspend/resume/
   terminate/kill/send_signal`, the setting forms of `nice/ionice/rlimit/cpu_affinity`, `ppid`,
-  `process_iter` (as far as it touches the identity machinery);
+  `process_iter` (cache `_pmap`, `_pids_reused`, the objects it builds and yields), `__str__` (status word);
   from psutil/_pslinux.py: `boot_time` (writes the module-level `BOOT_TIME`), `Process.create_time`
   (`BOOT_TIME or boot_time()`), the argument checks of `ionice_set` / `rlimit`, and the
   ESRCH/ENOENT → NoSuchProcess translation of `wrap_exceptions`.
@@ -88,7 +88,7 @@ structure Ps where
   bootTime : Option Nat   -- module-level `_pslinux.BOOT_TIME`
   objs : List PObj
   pidsReused : List Nat   -- `_pids_reused`
-  pmap : List Nat         -- PIDs cached in `_pmap` by process_iter
+  pmap : List (Nat × Nat) -- `_pmap` of process_iter: PID ↦ index (in `objs`) of the cached Process object
   deriving Repr
 
 inductive SetKind | nice | ionice | rlimit | affinity
@@ -120,6 +120,12 @@ inductive Call
   | eq (i j : Nat)
   | hash (i : Nat)
   | processIter
+  | oneshot (i : Nat) (enter : Bool)   -- `with p.oneshot():` entered / left on object i (no answer may change)
+  | status (i : Nat)                   -- the status word `str(p)` / `repr(p)` shows
+  deriving DecidableEq, Repr
+
+/-- the status word of `Process.__str__` (the kernel's state letter is reduced to zombie / not zombie) -/
+inductive StatusWord | reusedTerminated | terminated | zombie | alive
   deriving DecidableEq, Repr
 
 inductive Exc | noSuchProcess (pid : Int) | valueError | badCall
@@ -131,7 +137,8 @@ inductive Out
   | nat (n : Nat)
   | obj (i : Nat)
   | ident (pid ct : Nat)       -- `hash()`: any function of the `_ident` tuple
-  | pids (l : List Nat)
+  | procs (l : List (Nat × Nat))   -- `list(process_iter())`: (pid, index of the yielded object), in yield order
+  | status (w : StatusWord)
   | exc (e : Exc)
   deriving DecidableEq, Repr
 
@@ -286,15 +293,56 @@ def Call.target : Call → Option Nat
   | .isRunning i | .signal i _ | .setter i _ _ | .ppid i | .createTime i | .hash i => some i
   | _ => none
 
-/-- `process_iter()` run to exhaustion: drops cached entries whose PID is gone or flagged reused,
-    builds a `Process` for every PID not cached (which may initialise `BOOT_TIME`), yields one
-    object per listed PID -/
-def processIter (cfg : Cfg) (k : Kernel) (ps : Ps) : Ps × List Nat :=
-  let table := k.procs.map (·.pid)
-  let pm := (ps.pmap.filter fun p => table.contains p).filter fun p => !ps.pidsReused.contains p
-  let new := table.filter fun p => !pm.contains p
-  let ps1 := if new.isEmpty then ps else (bootForCreate cfg k ps).1
-  ({ ps1 with pmap := pm ++ new, pidsReused := [] }, table)
+/-- sorted insertion without duplicates (`set(pids())`, then `sorted(...)`) -/
+def insertPid (a : Nat) : List Nat → List Nat
+  | [] => [a]
+  | b :: bs => if a < b then a :: b :: bs else if a = b then b :: bs else b :: insertPid a bs
+
+def sortPids (l : List Nat) : List Nat := l.foldr insertPid []
+
+/-- `pmap.get(pid)` -/
+def pmLookup (pm : List (Nat × Nat)) (p : Nat) : Option Nat := (pm.find? (·.1 == p)).map (·.2)
+
+/-- the `for pid, proc in ls:` loop of `process_iter()` over the sorted PIDs of the table.
+    `kept` = cache entries that survive the two eviction rounds, `evicted` = PIDs whose entry was evicted
+    because the PID is in `_pids_reused` (they are neither in `pmap` nor in `new_pids`: skipped this time).
+    A PID that is not cached gets `Process(pid)` — exactly `mkObj`, which may initialise `BOOT_TIME`;
+    NoSuchProcess → skipped.  The new object is appended to `objs`; its index is yielded. -/
+def iterLoop (cfg : Cfg) (k : Kernel) (kept : List (Nat × Nat)) (evicted : List Nat) :
+    Ps → List Nat → Ps × List (Nat × Nat)
+  | ps, [] => (ps, [])
+  | ps, p :: rest =>
+    match pmLookup kept p with
+    | some i => let r := iterLoop cfg k kept evicted ps rest; (r.1, (p, i) :: r.2)
+    | none =>
+      if evicted.contains p then iterLoop cfg k kept evicted ps rest
+      else
+        match mkObj cfg k ps p with
+        | (ps', none) => iterLoop cfg k kept evicted ps' rest
+        | (ps', some o) =>
+          let r := iterLoop cfg k kept evicted { ps' with objs := ps'.objs ++ [o] } rest
+          (r.1, (p, ps'.objs.length) :: r.2)
+
+/-- `list(process_iter())`: cached entries whose PID left the table are dropped, then the entries of every
+    PID in `_pids_reused` (which is emptied); every other cached object is yielded as it is (same object,
+    whatever became of its process); every listed PID that was not cached gets a new `Process`; the new
+    `_pmap` is exactly what was yielded. -/
+def processIter (cfg : Cfg) (k : Kernel) (ps : Ps) : Ps × List (Nat × Nat) :=
+  let table := sortPids (k.procs.map (·.pid))
+  let live := ps.pmap.filter fun e => table.contains e.1
+  let kept := live.filter fun e => !ps.pidsReused.contains e.1
+  let evicted := (live.filter fun e => ps.pidsReused.contains e.1).map (·.1)
+  let r := iterLoop cfg k kept evicted ps table
+  ({ r.1 with pmap := r.2, pidsReused := [] }, r.2)
+
+/-- the status word of `str(p)`: the `_pid_reused` flag first, else `name()` / `status()` read
+    `/proc/pid/stat` of whoever holds the PID now (NoSuchProcess → "terminated") -/
+def statusWord (k : Kernel) (o : PObj) : StatusWord :=
+  if o.reused then .reusedTerminated
+  else
+    match k.find o.pid with
+    | none => .terminated
+    | some x => if x.zombie then .zombie else .alive
 
 /-- append the effect of a call made through object `i` (newest first) -/
 def pushEff (i : Nat) (log : List Eff) : Option (EffKind × Int × List Int × Option Nat) → List Eff
@@ -318,7 +366,12 @@ def step (cfg : Cfg) (s : St) : Ev → St × Out
       match s.ps.objs[i]?, s.ps.objs[j]? with
       | some a, some b => (s, .bool (a.pid == b.pid && a.ident == b.ident))
       | _, _ => (s, .exc .badCall)
-    | .processIter => let r := processIter cfg s.kern s.ps; ({ s with ps := r.1 }, .pids r.2)
+    | .processIter => let r := processIter cfg s.kern s.ps; ({ s with ps := r.1 }, .procs r.2)
+    | .oneshot _ _ => (s, .unit)
+    | .status i =>
+      match s.ps.objs[i]? with
+      | some o => (s, .status (statusWord s.kern o))
+      | none => (s, .exc .badCall)
     | call =>
       match call.target with
       | none => (s, .exc .badCall)
